@@ -193,7 +193,7 @@ func (x *Extractor) EvalCond(c *RF, assume []Assumption) Tri {
 		}
 		cst, ok := d.IsConst()
 		if !ok {
-			return Unknown
+			return x.evalByRegions(at.Name, d, assume, sub)
 		}
 		sg := cst.Sign()
 		var res bool
@@ -216,6 +216,101 @@ func (x *Extractor) EvalCond(c *RF, assume []Assumption) Tri {
 		return False
 	}
 	return Unknown
+}
+
+// cmpTruth: truth of the comparison `name` of (l, r) when sign(l-r) = sg
+// (sg == 2: unordered, i.e. a NaN operand).
+func cmpTruth(name string, sg int) bool {
+	if sg == 2 {
+		return name == "cmp!="
+	}
+	switch name {
+	case "cmp<":
+		return sg < 0
+	case "cmp<=":
+		return sg <= 0
+	case "cmp==":
+		return sg == 0
+	case "cmp!=":
+		return sg != 0
+	}
+	return false
+}
+
+// evalByRegions decides a comparison with difference d from the assumed
+// comparisons over the same difference (up to a nonzero constant factor):
+// the order regions of d (negative, zero, positive, unordered for floats)
+// compatible with every such assumption are enumerated, and the comparison is
+// decided when it has the same truth value in all of them.
+func (x *Extractor) evalByRegions(name string, d *RF, assume []Assumption, sub map[AtomID]*RF) Tri {
+	regions := []int{-1, 0, 1}
+	if !x.S.Integral(d) {
+		regions = append(regions, 2)
+	}
+	used := false
+	for _, a := range assume {
+		if a.Cond == nil {
+			continue
+		}
+		c, truth := a.Cond, a.True
+		for {
+			ca := c.SingleAtom()
+			if ca != nil && ca.Name == "not" {
+				c, truth = ca.Args[0], !truth
+				continue
+			}
+			break
+		}
+		ca := c.SingleAtom()
+		if ca == nil || !isCmpName(ca.Name) {
+			continue
+		}
+		d2 := ca.Args[0].Sub(ca.Args[1])
+		if len(sub) > 0 {
+			d2 = d2.Subst(sub)
+		}
+		k := 0
+		switch {
+		case d2.Equal(d):
+			k = 1
+		case d2.Equal(d.Neg()):
+			k = -1
+		default:
+			if q := d2.Div(d); q != nil {
+				if cq, ok := q.IsConst(); ok && cq.Sign() != 0 {
+					k = cq.Sign()
+				}
+			}
+		}
+		if k == 0 {
+			continue
+		}
+		used = true
+		var keep []int
+		for _, reg := range regions {
+			sg := reg
+			if reg != 2 {
+				sg = reg * k
+			}
+			if cmpTruth(ca.Name, sg) == truth {
+				keep = append(keep, reg)
+			}
+		}
+		regions = keep
+	}
+	if !used || len(regions) == 0 {
+		return Unknown
+	}
+	t0 := cmpTruth(name, regions[0])
+	for _, reg := range regions[1:] {
+		if cmpTruth(name, reg) != t0 {
+			return Unknown
+		}
+	}
+	if t0 {
+		return True
+	}
+	return False
 }
 
 func isIntType(t types.Type) bool {
@@ -1268,13 +1363,14 @@ func (x *Extractor) inline(f *ssa.Function, args []*RF, parent *FC) *RF {
 	if res.Len() == 0 {
 		return nil
 	}
+	ptrRes := false
 	for i := 0; i < res.Len(); i++ {
 		t := res.At(i).Type()
 		if _, isIface := t.Underlying().(*types.Interface); isIface {
 			continue
 		}
 		if ptrLike(t) {
-			return nil
+			ptrRes = true
 		}
 	}
 	x.depth[f]++
@@ -1309,6 +1405,9 @@ func (x *Extractor) inline(f *ssa.Function, args []*RF, parent *FC) *RF {
 		}
 		return x.S.MakeFn("tuple", rs...)
 	}
+	if ptrRes {
+		return nil
+	}
 	// effects: only pure helpers are inlined (no stores to non-local memory)
 	if x.Eff != nil {
 		if sum := x.Eff.Summary(f); sum != nil && len(sum.Writes) > 0 {
@@ -1334,6 +1433,30 @@ func (fc *FC) retVal(b *ssa.BasicBlock, depth int) *RF {
 	s := fc.X.S
 	if depth > 40 {
 		return nil
+	}
+	// a loop header is stepped over through the loop's single exit target
+	// (values computed by the loop are its loop-carried atoms)
+	var outer *Loop
+	for _, l := range fc.Ctx.Loops() {
+		if l.Header == b && (outer == nil || len(l.Body) > len(outer.Body)) {
+			outer = l
+		}
+	}
+	if outer != nil {
+		exits := map[int]*ssa.BasicBlock{}
+		for bi := range outer.Body {
+			for _, sc := range fc.Ctx.LiveSuccs(fc.Fn.Blocks[bi]) {
+				if !outer.Body[sc.Index] {
+					exits[sc.Index] = sc
+				}
+			}
+		}
+		if len(exits) != 1 {
+			return nil
+		}
+		for _, e := range exits {
+			return fc.retVal(e, depth+1)
+		}
 	}
 	last := b.Instrs[len(b.Instrs)-1]
 	switch t := last.(type) {
@@ -1385,4 +1508,44 @@ func (fc *FC) retVal(b *ssa.BasicBlock, depth int) *RF {
 		return s.Ite(fc.Val(t.Cond), tv, fv)
 	}
 	return nil
+}
+
+// BoundCallees: this context followed by contexts of the module functions it
+// calls statically (transitively to the given depth), their parameters bound
+// to the actual arguments and the caller's assumptions applied — for rules
+// that look for a construct "in this function or a helper it delegates to".
+func (fc *FC) BoundCallees(depth int) []*FC {
+	out := []*FC{fc}
+	if depth <= 0 {
+		return out
+	}
+	seen := map[*ssa.Function]bool{fc.Fn: true}
+	var walk func(cur *FC, d int)
+	walk = func(cur *FC, d int) {
+		cur.Ctx.Instrs(func(in ssa.Instruction) {
+			c, ok := in.(*ssa.Call)
+			if !ok {
+				return
+			}
+			f := c.Common().StaticCallee()
+			if f == nil || f.Blocks == nil || seen[f] || f.Pkg == nil || !fc.X.W.IsLib[f.Pkg] || len(c.Common().Args) != len(f.Params) {
+				return
+			}
+			seen[f] = true
+			bind := map[*ssa.Parameter]*RF{}
+			args := make([]*RF, len(f.Params))
+			for i, p := range f.Params {
+				args[i] = cur.Val(c.Common().Args[i])
+				bind[p] = args[i]
+			}
+			sub := fc.X.newFC(f, bind, fc.Assume)
+			sub.bindArgs = args
+			out = append(out, sub)
+			if d > 1 {
+				walk(sub, d-1)
+			}
+		})
+	}
+	walk(fc, depth)
+	return out
 }
